@@ -15,13 +15,13 @@ CLAIMS = {
     technique="contracts + loop invariants + block refinement against ASTM spec; VCs from Python ast / clang AST; z3 (array-property instantiation), cvc5 fallback"),
  "C03": dict(
     text="Proof (sympy, exact real arithmetic) that the six ramp-invariant coefficient functions of srs.py (real function objects executed on "
-         "symbolic Q, dT, wn; regimes wn>0 and wn==0) reproduce the exact oscillator response to every piecewise-linear input from rest: the "
+         "symbolic Q, dT, wn; regimes wn==0 and wn>0 with wn*dT from 1e-6 to 2.5 and light / heavy damping: a branch on the size of wn*dT or of the damping is only seen by a witness on its side) reproduce the exact oscillator response to every piecewise-linear input from rest: the "
          "spec response is derived from the ODE itself (lemmas checked by differentiation), the filter must match the hat-function response at "
          "samples 0..len(b)+1 and at a symbolic later time; relations pvelo=w*reldisp, pacce=w^2*reldisp and the static gains used by the "
          "steady-state add-back are proved. Initial-condition rules, time windows, t vector, eqsine and multi-frequency padding are checked by "
          "running the real srs.srs on a symbolic 2-sample record (bounded in record length, labelled bounded).",
     note="Trusted: sympy, the symbolic shims of math/NumPy allocation, scipy.signal.lfilter = LTI direct-form filter (assumed contract). Floats are "
-         "mathematical reals: round-off and the sr/fn<=2000 conditioning clause are not decided. Not covered: resamplers, srs_frf/vrs/Miles.",
+         "mathematical reals: round-off and the sr/fn<=2000 conditioning clause are not decided. srs_frf / vrs / Miles closed forms: bounded float oracle only (uniform, logarithmic, two-step and irregular grids). Not covered: resamplers.",
     technique="contracts as ODE-lemma specifications; real functions executed on symbolic inputs (concolic shim); sympy normal forms + 50-digit refutation"),
  "C01": dict(
     text="Proof (sympy) that get_su_coef's eight coefficients satisfy the ODE-lemma characterisation of the exact piecewise-linear-force step in every "
@@ -222,7 +222,7 @@ CLAIMS = {
     note="Partial: the file plumbing around the kernels is only exercised by the bounded round trips. Trusted: z3, AST extraction (fails closed), printf %E contract.",
     technique="verification conditions generated from AST-extracted assignments of the real writer/reader (z3 LIA); symbolic string domain for the field width; known-finding regions carved out; bounded write->read round trips"),
  "C11": dict(
-    text="Mostly a bounded differential check, stated as such: an encoder that shares no code with pyYeti (vc/nasenc.py, its record skeleton compared with a Nastran-written sample "
+    text="Deductive part: loop contracts over a GHOST FILE (byte offset + uninterpreted content; fp.read/seek, Struct.unpack, struct.unpack, np.fromfile are contract objects of the VC generator) for the binary OUTPUT4 column readers _rd_dense/_rd_bigmat/_rd_nonbigmat_binary, _skipop4_binary and the tail of _loadop4_binary (reader called under its contract), and for OUTPUT2 rdop2matrix/skipop2matrix (with _getkey inlined): the record grammars are recursive well-formedness predicates; every read has the size of the struct it is unpacked with, every string is stored at the (row, column, file offset, count) the grammar defines (complex row doubling included), reader and skipper end on the same byte - for every file, any number of columns and strings (induction over both loops, ~630 obligations, z3). The class invariant of _op4open_read (struct sizes, byte order, words per real) is decided by running its real binary branch for both integer widths and byte orders. The rest is a bounded differential check, stated as such: an encoder that shares no code with pyYeti (vc/nasenc.py, its record skeleton compared with a Nastran-written sample "
          "file on every run) lays out matrices and tables in every physical variant the formats permit - OUTPUT4 binary {byte order} x {32/64-bit integers} x {dense, bigmat, "
          "nonbigmat} x {real/complex, single/double} x string partitions (maximal runs, runs split at arbitrary places, runs merged with explicit zeros), strings of >= 3000 values "
          "(struct -> fromfile cut-over), ASCII with E/D exponents and several announced widths; OUTPUT2 {byte order} x {32/64-bit keys} x {with/without header} with matrices of "
@@ -230,8 +230,8 @@ CLAIMS = {
          "OP2.directory() must agree with full reads and with the byte offsets the encoder recorded; a named subset must equal filtering; skipping must leave the reader at the "
          "next data block. Deductive part (z3, small): reader arithmetic extracted by AST - format detection for every legal first word, the skip distance of _skipop4_binary, "
          "values-per-string of rdop2matrix for every integer width and precision, bigmat/nonbigmat string decoding.",
-    note="No contract within reach decides the byte-level decoders as a whole (file I/O, struct, numpy.fromfile); the end-to-end part is bounded and never counted as proved. "
+    note="The ghost-file contracts assume a well-formed, long-enough file and the contracts of struct.unpack / np.fromfile / _put_binary_values* (block stored at row, column); the header loop of _loadop4_binary, the ASCII readers, OUTPUT2 name/table/record readers, directory and set_position are covered by the bounded differential part only (never counted as proved). "
          "Trusted: the format grammar transcribed in vc/nasenc.py.",
-    technique="bounded differential check against an independent format encoder; verification conditions from AST-extracted reader arithmetic (z3)"),
+    technique="loop contracts over a ghost file (vc.symex contract objects, recursive format predicates, z3); verification conditions from AST-extracted reader arithmetic; bounded differential check against an independent format encoder"),
 }
 NOT_APPLICABLE = {}
